@@ -151,6 +151,8 @@ def iter_kinds(prog: Program, fn: Func, it: ast.AST, target: ast.AST, var: str, 
             return iter_kinds(prog, fn, it.args[0], target, var, depth)
         if d in ("core.walk", "core.filter_nodes") and len(it.args) >= 2 and isinstance(target, ast.Name):
             return template_kinds(prog, fn, it.args[1])
+        if d in ("core.walk_wildcard", "core.walk_sequence"):
+            return {"AST"}   # components of a match are nodes (kind given by the wildcard's template)
         if d in ("parsing.iter_funcdefs",):
             return {"FunctionDef", "AsyncFunctionDef"}
         if d in ("parsing.iter_classdefs",):
